@@ -100,6 +100,11 @@ def gen_case(rng, tier, index):
     case["workload"] = "align"
     case["auto_align"] = True
     case["align_seed"] = rng.randrange(1 << 30)
+    if case["fmt"] == "pe" and rng.random() < 0.4:
+        # the way PE modules usually come: no alignment table at all (the
+        # first patch with an alignment directive creates it)
+        case["alignment_table"] = False
+        case["auto_align"] = False
     return case
 
 
@@ -619,6 +624,10 @@ def run_align(case):
     nalign = {}
 
     def before(r):
+        if "alignment" not in r.bu.module.aux_data:
+            nalign["n"], nalign["entries"] = 0, {}
+            ctr["modules_without_alignment_table"] = 1
+            return
         nalign["n"] = apply_auto_align(case, r.bu)
         nalign["entries"] = dict(
             r.bu.module.aux_data["alignment"].data)
@@ -636,7 +645,8 @@ def run_align(case):
             viol.append({"key": key, "msg": repr(r.exception)[:300]})
         return {"sig": None, "violations": viol, "counters": ctr}
     m = r.bu.module
-    table = m.aux_data["alignment"].data
+    table = m.aux_data["alignment"].data if "alignment" in m.aux_data \
+        else {}
     held = 0
     for blk, a in nalign["entries"].items():
         if blk.byte_interval is None or blk.size == 0:
